@@ -149,3 +149,15 @@ Example C12_negid_ok_example :
     (Bin Conjunction (Un Negation (Pred (PSys Identity) [Const 0 0%N; Const 1 0%N]))
                      (Pred (PUser 1 0%N 3) [Const 0 0%N; Const 1 0%N; Const 2 0%N])) = true.
 Proof. vm_compute. reflexivity. Qed.
+
+(* Injectivity of the Polish writer over ANY string table whose token renderings are uniquely
+   decodable (code_ok W, Lang/Transfer.v: every symbol non-empty, distinct symbols prefix-
+   incomparable, non-empty subscript delimiters, the closing one not starting with a digit, no
+   symbol comparable with the opening one) - multi-character symbols allowed; by transfer from a
+   reference table W0 that a parse table reads back (Polish ASCII). *)
+From PT Require Import Lang.Transfer.
+Theorem C12_write_polish_injective_code : forall T W0 W, agree_b T W0 = true -> code_ok W = true ->
+  forall s1 s2 w, roundtrippable s1 = true -> roundtrippable s2 = true ->
+  write_polish W s1 = Some w -> write_polish W s2 = Some w -> s1 = s2.
+Proof. exact write_polish_injective_code. Qed.
+Print Assumptions C12_write_polish_injective_code.
